@@ -48,6 +48,8 @@ ERROR_LEAVES = [
     ("Undeclared", "nope"),
     ("ValueError-subclass", 'timestamp("bad") == timestamp("bad")'),
     ("OverflowError", "int(1e400) > 0"),
+    ("MacroBody", "[1].map(v, 1 / 0) == []"),
+    ("ErrorValue", '"a".matches("(")'),
 ]
 
 
@@ -346,6 +348,19 @@ def limits_family():
         out.append(("raw", None, "vm" + ".a" * n))
         out.append(("raw", None, "vl" + "[0]" * n))
         out.append(("raw", None, "dyn(" * n + "1" + ")" * n))
+    # odd but parseable shapes: escapes that denote nothing, macros and macro-like functions with the wrong
+    # argument shape, heterogeneous min(), message literals, zone names that are not zones, huge double indexes
+    odd = ['"\\UFFFFFFFF"', 'b"\\U0001F431"', '"\\U00110000"', "b'\\UFFFFFFFF'", '"\\uD800"', "has()", "dyn()", "has(vm.a, 1)", "dyn(1, 2)", "has(1)", "has(vm)",
+           '[1, "a"].min()', "[].min()", "[null].min()", "[1].min(x)", "[1].map(1, 2)", "[1].map(x + y, 2)", "[1].all()", "[1].exists(x)", "[1].map(x, y, z)", "[1].reduce(r, i, 0)",
+           "vl.map(vl, vl)", "[1].filter(1, true)", "Msg{a: 1, a: 2}", "Msg{a: 1}", "Msg{}", "vm{a: 1}", "vi{}", '"a"{b: 1}', "x - in", "class + 1", "is", "lambda.a", "[1].map(class, class)",
+           'vt.getHours("America")', 'vt.getHours("Europe")', 'vt.getHours("")', 'vt.getHours("+25:00")', 'vt.getHours("UTC+1")', 'vt.getDate("Etc")', 'vr.getHours("UTC")',
+           "vl[1e19]", "vl[-1e19]", "vl[1e300]", "vl[0.0]", "vl[1u]", "vm[1e19]", 'duration("s")', 'duration(".s")', 'duration("-h")', 'duration("1h.m")', 'duration("")', 'timestamp("America")',
+           'timestamp("")', "int(\"\")", 'double("")', "uint(\"-\")", "bytes(1)", "string([1])", "type()", "type(1, 2)", "size()", "size(1, 2)", "vs.contains()", "vs.startsWith(1, 2)", "matches()",
+           'vs.matches("(")', 'vs.matches("\\\\")', "-vs", "!vi", "-vn", "-vb", "vl + vm", "vm in vm", "vn in vn", "vl[vl]", "vm[vm]", "vm[vl]", "{vl: 1}", "{vm: 1}", "{1.5: 1}", "{null: 1}", "[1][true]"]
+    for o in odd:
+        out.append(("raw", None, o))
+        out.append(("raw", None, f"({o}) == 1 || true"))
+        out.append(("raw", None, f"[1].map(v, {o})"))
     for n in (1, 2, 16, 32, 64):
         out.append(("raw", None, "[" + ", ".join(str(i) for i in range(n)) + "]"))
         out.append(("raw", None, "{" + ", ".join(f"{i}: {i}" for i in range(n)) + "}"))
